@@ -247,9 +247,9 @@ Definition mk_cmp (o : cop) (a b : term) : term :=
         if (y =? 0) && (c =? 0) && is_gt_or_ne o && forallb is01 l && (2 <=? Z.of_nat (length l))
            && (Z.of_nat (length l) <? 1000)
         then fold_right mk_or (TC 0) l
-        else if (y =? 0) && (1 <=? c) && (c <? 1000000) && is_gt_or_ne o && forallb is01 l
+        else if (y =? 0) && (1 <=? c) && (c <? 1000000) && forallb is01 l
                 && (Z.of_nat (length l) <? 1000)
-        then TC 1
+        then tc01 (cmp o 1 0)      (* a positive value against 0, whatever the comparison *)
         else canon_cmp o a b
   | None, None =>
       if term_eqb a b then tc01 (cmp o 0 0) else   (* x CMP x *)
@@ -664,7 +664,7 @@ Proof.
         -- destruct (0 <? sum_eval l) eqn:P.
            ++ apply Z.ltb_lt in P. symmetry. apply negb_true_iff, Z.eqb_neq. lia.
            ++ apply Z.ltb_ge in P. symmetry. apply negb_false_iff, Z.eqb_eq. lia.
-      * destruct ((y =? 0) && (1 <=? c) && (c <? 1000000) && is_gt_or_ne o && forallb is01 l
+      * destruct ((y =? 0) && (1 <=? c) && (c <? 1000000) && forallb is01 l
                   && (Z.of_nat (length l) <? 1000)) eqn:G2.
         -- repeat (apply andb_true_iff in G2 as [G2 ?]).
            apply Z.eqb_eq in G2. subst y.
@@ -675,9 +675,15 @@ Proof.
            rewrite (summands_sound _ _ _ Es).
            pose proof (sum01_bounds l F) as B.
            rewrite wrap32_small by (unfold in32, two31; lia).
-           destruct o; try discriminate; cbn [eval cmp b2z].
-           ++ replace (sum_eval l + c >? 0) with true; [reflexivity|]. symmetry. rewrite Z.gtb_ltb. apply Z.ltb_lt. lia.
-           ++ replace (sum_eval l + c =? 0) with false; [reflexivity|]. symmetry. apply Z.eqb_neq. lia.
+           rewrite tc01_eval. f_equal.
+           assert (P : 1 <= sum_eval l + c) by lia. remember (sum_eval l + c) as v eqn:Ev. clear Ev B.
+           destruct o; cbn [cmp].
+           ++ transitivity false; [|symmetry]; apply Z.ltb_ge; lia.
+           ++ rewrite !Z.gtb_ltb. transitivity true; [|symmetry]; apply Z.ltb_lt; lia.
+           ++ transitivity false; [|symmetry]; apply Z.eqb_neq; lia.
+           ++ rewrite !Z.geb_leb. transitivity true; [|symmetry]; apply Z.leb_le; lia.
+           ++ transitivity false; [|symmetry]; apply Z.leb_gt; lia.
+           ++ f_equal. transitivity false; [|symmetry]; apply Z.eqb_neq; lia.
         -- rewrite canon_cmp_sound, (as_const_sound _ _ Eb). reflexivity.
   - destruct (term_eqb a b) eqn:Eab.
     { apply term_eqb_eq in Eab. subst b. rewrite tc01_eval. f_equal.
